@@ -83,6 +83,30 @@ def spec_targets(line, is_zoq):
     return out
 
 
+def spec_target_positions(line, is_zoq):
+    """word positions of the ZIDs that spec_targets counts as targets"""
+    pos, primary_seen, in_prefix = set(), False, True
+    for idx, w0 in enumerate(line.split(" ")):
+        w = w0.strip("(),.?!;:")
+        if re.fullmatch(r"\[\[[^\[\]]+\]\]|\[\^[^\]]+\]|\[#[^\]]+\]|\[@[^\]]+\]|\[![^\]]+\]", w):
+            in_prefix = False
+            continue
+        zw = w.strip("[]")
+        if is_zid(zw):
+            if is_zoq:
+                pos.add(idx)
+            elif in_prefix and not primary_seen and zw == w and idx > 0:
+                primary_seen = True
+                in_prefix = False
+            else:
+                pos.add(idx)
+            continue
+        if in_prefix and (w in ("-", "o", "x", "~", "<", ">", "") or re.fullmatch(r"P\d", w) or re.fullmatch(r"\d{6}", w)):
+            continue
+        in_prefix = False
+    return pos
+
+
 def impl_run(d, path, lineno, opt):
     args = ["--dir", d, "action", "open", os.path.join(d, path), str(lineno)]
     if opt is not None:
@@ -165,18 +189,20 @@ def check_line(eng, d, path, lineno, line, oc):
             trig = None
             # known class: a ZID target occurs before any ordinary word (one that is not a kind
             # character, Pn, six digits, a ZID or a link) has been seen on the line
+            # (the implementation's found_primary_zid flag is still unset), while the property's reading
+            # (spec_targets) counts that ZID as non-primary
             seen_ordinary = False
+            spec_pos = spec_target_positions(line, is_zoq)
             for i, w in enumerate(words):
-                linkish = bool(re.search(r"\[\[.*\]\]|\[[\^#@!].*\]", w)) or w.startswith("z::")
+                linkish = (("[[" in w and "]]" in w) or ("[#" in w and "]" in w) or ("[@" in w and "]" in w)
+                           or ("[!" in w and "]" in w) or w.startswith("z::") or bool(re.fullmatch(r"\[\^[^\]]+\]", w)))
                 zw = w.strip("[]")
                 if linkish:
                     continue
-                if is_zid(zw) and not is_zoq and i != 0:
-                    if not seen_ordinary and zw in st and not (zw == w and i == min(
-                            [j for j, x in enumerate(words) if is_zid(x)] or [i])):
-                        trig = "primary_flag_late"
-                    if is_zid(w):
-                        continue
+                if is_zid(zw) and not is_zoq and i != 0 and not seen_ordinary and i in spec_pos:
+                    trig = "primary_flag_late"
+                if is_zid(zw) and (seen_ordinary or is_zoq or i == 0):
+                    continue
                 if not (w in ("-", "o", "x", "~", "<", ">") or re.fullmatch(r"P\d|\d{6}", w) or is_zid(w)):
                     seen_ordinary = True
             if trig:
